@@ -9,6 +9,10 @@ open H3.Drv
 
 /-! ### pint -/
 
+/-- `decm` input: pieces in hex separated by `,`, none empty -/
+def parseChunks (h : String) : Option (List (List Nat)) :=
+  (h.splitOn ",").mapM (fun p => (parseHex p).bind (fun b => if b.isEmpty then none else some b))
+
 def pintRes : Option PrefixInt.Res → String
   | none => "panic"
   | some (.ok f v rest) => s!"ok {f} {v} {toHex rest}"
@@ -47,6 +51,12 @@ def handlePint : List String → String
   | ["pint", "dec", n, h] =>
     match n.toNat?, parseHex h with
     | some n, some bs => pintRes (PrefixInt.decode? n bs) ++ " ## " ++ pintSpec n bs
+    | _, _ => "bad-op"
+  | ["pint", "decm", n, h] =>
+    -- the same function over a multi-chunk `Buf` (pieces separated by `,`): the specification is that of
+    -- the concatenation, it has no opinion on cuts
+    match n.toNat?, parseChunks h with
+    | some n, some cs => pintRes (PrefixInt.decodeM? n cs) ++ " ## " ++ pintSpec n cs.flatten
     | _, _ => "bad-op"
   | ["pint", "enc", n, f, v] =>
     match n.toNat?, f.toNat?, v.toNat? with
@@ -138,6 +148,30 @@ def handleHuff : List String → String
         | some w => s!"ok {toHex w} rt {huffDecModel w}"
       m ++ " ## " ++ s!"ok {toHex (Spec.Huffman.specEncode s)} rt ok {toHex s}"
     | none => "bad-op"
+  | ["huff", "decn", h, c] =>
+    -- a Huffman literal of `c` copies of the unit `h` (inputs too long for a case line).  The model runs the
+    -- short ones; from `8·len + 16 ≥ 2^32` on it answers without building the list: the repaired
+    -- `prefix_string::decode` refuses the literal (`PrefixString.hugeHuffman`), the unrepaired one overflows
+    -- `src.len() as u32 * 8` for 2^29 ≤ len < 2^32 (`C15_huffman_positions_fit` (4); a panic in the harness
+    -- build, which has overflow checks on; from 2^32 on the cast wraps silently and the model has no
+    -- prediction).  The specification: an answer, never a panic.
+    match parseHex h, c.toNat? with
+    | some unit, some count =>
+      let total := unit.length * count
+      let m :=
+        if total * 8 + 16 ≥ 2 ^ 32 then
+          if H3.Gen.HuffDec.hugeLiteralRefused then "err BufSize"
+          else if 2 ^ 29 ≤ total ∧ total < 2 ^ 32 then "panic"
+          else "model-unsupported"
+        else if total ≤ 65536 then
+          match Huffman.hdecode (List.replicate count unit).flatten with
+          | .ok v => s!"ok len={v.length}"
+          | .error (.missingBits _) => "err MissingBits"
+          | .error (.unhandled _ _) => "err Unhandled"
+          | .error .fuel => "model-fuel"
+        else "model-unsupported"
+      m ++ " ## ok * || err **"
+    | _, _ => "bad-op"
   | ["huff", "range", lo, hi] =>
     match lo.toNat?, hi.toNat? with
     | some lo, some hi =>
@@ -154,6 +188,7 @@ def pstrRes (payloadLax : Bool) : Option PrefixString.Res → String
   | some (.err .unexpectedEnd) => "err UnexpectedEnd"
   | some (.err .integerOverflow) => "err Integer Overflow"
   | some (.err (.huffman e)) => "err Huffman " ++ huffErr e
+  | some (.err .bufSize) => "err BufSize"
 
 /-- the Huffman payload `decode?` hands to the Huffman decoder, if it gets that far -/
 def pstrPayload (n : Nat) (bs : List Nat) : Option (List Nat) :=
@@ -167,6 +202,13 @@ def pstrDecModel (n : Nat) (bs : List Nat) : String :=
     | some p => Huffman.lax p
     | none => false
   pstrRes lax (PrefixString.decode? n bs)
+
+/-- the same for a multi-chunk `Buf` -/
+def pstrDecModelM (n : Nat) (cs : List (List Nat)) : String :=
+  let lax := match pstrPayload n cs.flatten with
+    | some p => Huffman.lax p
+    | none => false
+  pstrRes lax (PrefixString.decodeM? n cs)
 
 /-- RFC 7541 §5.2 string literal with an `(n−1)`-bit length prefix. -/
 def pstrSpec (n : Nat) (bs : List Nat) : String :=
@@ -182,6 +224,10 @@ def pstrSpec (n : Nat) (bs : List Nat) : String :=
       -- a length the integer decoder may refuse (DESIGN R-15): ≥ 2^62 or an over-long encoding
       let sat := decide (first % 2 ^ (n - 1) = 2 ^ (n - 1) - 1)
       let alt := if len ≥ 2 ^ 62 ∨ (sat ∧ PrefixInt.contLen r > 9) then " || err Integer Overflow" else ""
+      -- a Huffman literal of 2^29 − 2 bytes or more (its bit length + 16 does not fit `u32`) may be refused
+      -- as such (DESIGN R-15b, the repair of D-06u); no case line holds that many bytes, so on a case line
+      -- this is always a truncated literal, which the repaired decoder reports as `BufSize`
+      let alt := if first / 2 ^ (n - 1) % 2 = 1 ∧ len * 8 + 16 ≥ 2 ^ 32 then alt ++ " || err BufSize" else alt
       if len ≥ 2 ^ 64 then "err Integer Overflow"
       else if rest.length < len then "err UnexpectedEnd" ++ alt
       else
@@ -196,6 +242,10 @@ def handlePstr : List String → String
   | ["pstr", "dec", n, h] =>
     match n.toNat?, parseHex h with
     | some n, some bs => pstrDecModel n bs ++ " ## " ++ pstrSpec n bs
+    | _, _ => "bad-op"
+  | ["pstr", "decm", n, h] =>
+    match n.toNat?, parseChunks h with
+    | some n, some cs => pstrDecModelM n cs ++ " ## " ++ pstrSpec n cs.flatten
     | _, _ => "bad-op"
   | ["pstr", "enc", n, f, h] =>
     match n.toNat?, f.toNat?, parseHex h with
